@@ -358,7 +358,12 @@ func visitInstr(fr *frame, instr ssa.Instruction) continuation {
 		fr.env[instr] = makeMap(instr.Type().Underlying().(*types.Map).Key(), 0)
 
 	case *ssa.Range:
-		fr.env[instr] = rangeIter(ps, fr.get(instr.X), instr.X.Type())
+		it := rangeIter(ps, fr.get(instr.X), instr.X.Type())
+		if oi, ok := it.(*omapIter); ok {
+			// iteration order is explored only for the map ranges of /repo's own code
+			oi.nondet = ps.nondetMap && repoFunc(fr.fn) && (fr.fn.Pkg == nil || !fr.i.harnessPkgs[fr.fn.Pkg] || strings.HasSuffix(fr.fn.Pkg.Pkg.Path(), "/gotree/cmd") && !strings.HasPrefix(fr.fn.Name(), "H_") && !strings.HasPrefix(fr.fn.Name(), "zz"))
+		}
+		fr.env[instr] = it
 
 	case *ssa.Next:
 		fr.env[instr] = fr.get(instr.Iter).(iter).next()
